@@ -77,11 +77,12 @@ func c13Judge(env *hx.Env, files hx.Files, runs int) (hx.Verdict, int) {
 		var e []string
 		switch (i / 4) % 4 {
 		case 1:
-			e = []string{"TZ=Asia/Tokyo", "LANG=ja_JP.UTF-8", "GOMAXPROCS=1"}
+			e = []string{"TZ=Asia/Tokyo", "LANG=ja_JP.UTF-8", "GOMAXPROCS=1", "GOFILE=zoo.go", "GOLINE=3", "GOPACKAGE=home"}
 		case 2:
 			e = []string{"TZ=America/Los_Angeles", "LC_ALL=C", "GOMAXPROCS=7", "TMPDIR=" + tmp2}
 		case 3:
-			e = []string{"TZ=UTC", "LANG=de_DE.UTF-8", "GOMAXPROCS=16", "GOGC=1"}
+			// as under `go generate` started from another file of the package: the argument wins over GOFILE
+			e = []string{"TZ=UTC", "LANG=de_DE.UTF-8", "GOMAXPROCS=16", "GOGC=1", "GOFILE=zoo.go", "GOLINE=3", "GOPACKAGE=home", "GOARCH=amd64", "GOOS=linux"}
 		}
 		if i%3 == 2 {
 			time.Sleep(3 * time.Millisecond)
